@@ -188,7 +188,7 @@ Proof. vm_compute. repeat split; try reflexivity. right; left; reflexivity. Qed.
 (** hostOnly / challengeHost on the Host forms of the property text *)
 Example C15_host_forms :
   let s := fun l => challenge_host l in
-  s [91;58;58;49;93] = [58;58;49] /\                       (* "[::1]"      -> "::1" (fixed: 55f24a9) *)
+  s [91;58;58;49;93] = [58;58;49] /\                       (* "[::1]"      -> "::1" (fixed: 5887f0d) *)
   s [91;58;58;49;93;58;56;48] = [58;58;49] /\              (* "[::1]:80"   -> "::1" *)
   s [58;58;49] = [58;58;49] /\                             (* "::1"        -> "::1" *)
   s [97;46;98;58;56;48] = [97;46;98] /\                    (* "a.b:80"     -> "a.b" *)
@@ -199,7 +199,7 @@ Example C15_host_forms :
 Proof. vm_compute. repeat split; reflexivity. Qed.
 
 (** the sanitized-key collision that used to leak the certificate: with the identifier check
-    (fixed: b727ac2) SNI "a.example#" finds nothing although its storage key is that of "a.example" *)
+    (fixed: d859c14) SNI "a.example#" finds nothing although its storage key is that of "a.example" *)
 Example C15_safe_collision_closed :
   let sni := [97;46;101;120;97;109;112;108;101;35] in
   ex_sf sni = ex_sf (c_ident ex_c) /\
